@@ -26,6 +26,7 @@ def parseSigs (s : String) : Option (List CommitSig) :=
     if e = "o" then some .other else
     match e.splitOn ":" with
     | ["c", a, t] => do some (.commit (← a.toNat?) (← parseSigTag t))
+    | ["n", _] => some .other          -- a (validly signed) precommit for nil: not a vote for the block
     | _ => none
 
 def errName : QErr → String
